@@ -1,11 +1,400 @@
 //! C02 — results do not depend on indexes, storage tier, planner mode or process.
-//! (probe stage)
-use samyama::graph::GraphStore;
-use samyama::query::QueryEngine;
+//!
+//! Metamorphic on the implementation: a random history (creates, property changes incl. type
+//! changes, label changes, deletes with id reuse, relationships) is replayed into nine stores
+//! {no index, indexes created before the data, indexes created after the data} x {never
+//! compacted, compacted at the end, compacted in the middle}; every generated read query is run
+//! on each store under {legacy, graph-native planner} x {parallel filter forced on, off} and all
+//! 36 result bags must be equal.  A child process (fresh hash seeds) recomputes one
+//! configuration and must produce the same bags.  Against the model (coq/model/Index.v): for the
+//! single-node comparison queries the labelled nodes with their values, the ids returned without
+//! and with an index and the ids `PropertyIndex::candidates` yields are printed for coqc.
+use samyama::graph::{EdgeId, GraphStore, Label, NodeId, PropertyValue};
+use samyama::index::property_index::IndexOp;
+use samyama::query::executor::planner::{PlannerConfig, QueryPlanner};
+use samyama::query::{parse_query, QueryEngine, QueryExecutor};
+use std::collections::{BTreeMap, HashMap};
 use vh::*;
 
-fn rows(store: &GraphStore, q: &str) -> Result<Vec<String>, String> {
-    let r = catch(std::panic::AssertUnwindSafe(|| QueryEngine::new().execute(q, store).map_err(|e| e.to_string())));
+type PV = PropertyValue;
+
+// ---------- printers (as in c10.rs) ----------
+fn g_pv(v: &PV) -> String {
+    match v {
+        PV::String(s) => format!("PStr {}", g_bytes(s.as_bytes())),
+        PV::Integer(i) => format!("PInt {}", g_z(*i as i128)),
+        PV::Float(f) => format!("PFloat {}", g_z(f.to_bits() as i128)),
+        PV::Boolean(b) => format!("PBool {}", g_bool(*b)),
+        PV::DateTime(d) => format!("PDate {}", g_z(*d as i128)),
+        PV::Array(a) => format!("PArr {}", g_list(a.iter().map(|x| format!("({})", g_pv(x))))),
+        PV::Map(m) => {
+            let mut ks: Vec<&String> = m.keys().collect();
+            ks.sort_by(|a, b| a.as_bytes().cmp(b.as_bytes()));
+            format!("PMap {}", g_list(ks.iter().map(|k| format!("({}, {})", g_bytes(k.as_bytes()), g_pv(&m[*k])))))
+        }
+        PV::Vector(x) => format!("PVec {}", g_list(x.iter().map(|f| g_z(f.to_bits() as i128)))),
+        PV::Duration { months, days, seconds, nanos } => format!(
+            "PDur {} {} {} {}",
+            g_z(*months as i128),
+            g_z(*days as i128),
+            g_z(*seconds as i128),
+            g_z(*nanos as i128)
+        ),
+        PV::Null => "PNull".to_string(),
+    }
+}
+
+fn h_pv(v: &PV) -> String {
+    match v {
+        PV::Float(f) => format!("Float({:?}/{:#x})", f, f.to_bits()),
+        PV::Array(a) => format!("[{}]", a.iter().map(h_pv).collect::<Vec<_>>().join(", ")),
+        other => format!("{:?}", other),
+    }
+}
+
+// ---------- histories ----------
+const LABELS: [&str; 3] = ["L0", "L1", "L2"];
+const KEYS: [&str; 2] = ["x", "y"];
+const TYPES: [&str; 2] = ["R", "S"];
+
+#[derive(Clone, Debug)]
+enum Op {
+    CreateNode { uid: i64, labels: Vec<usize>, props: Vec<(usize, PV)> },
+    SetProp { uid: i64, key: usize, val: PV },
+    RemoveProp { uid: i64, key: usize },
+    AddLabel { uid: i64, label: usize },
+    RemoveLabel { uid: i64, label: usize },
+    DeleteNode { uid: i64 },
+    CreateEdge { eid: i64, src: i64, dst: i64, ty: usize, w: PV },
+    DeleteEdge { eid: i64 },
+    SetEdgeProp { eid: i64, w: PV },
+}
+
+const P53: i64 = 1 << 53;
+
+fn rand_val(r: &mut Rng, mixed: bool) -> PV {
+    let k = if mixed { r.below(16) } else { r.below(5) };
+    match k {
+        0 | 1 | 2 => PV::Integer(r.below(9) as i64 - 2),
+        3 | 4 => PV::Float(*r.pick(&[1.0, 1.5, 2.0, 5.0, 6.0, -1.0, 0.0, -0.0, 0.5, 6.5])),
+        5 => PV::Float(*r.pick(&[f64::NAN, -f64::NAN, f64::INFINITY, f64::NEG_INFINITY, 9007199254740992.0, 1e19])),
+        6 => PV::Integer(*r.pick(&[P53, P53 + 1, P53 - 1, i64::MAX, i64::MIN, -(P53 + 1)])),
+        7 | 8 => PV::String(r.pick(&["a", "b", "", "true", "FALSE", "5"]).to_string()),
+        9 => PV::Boolean(r.chance(1, 2)),
+        10 => PV::DateTime(r.below(9) as i64 - 2),
+        11 => PV::Array(vec![PV::Integer(r.below(3) as i64)]),
+        12 => PV::Array(vec![PV::Float(*r.pick(&[0.0, -0.0, 1.0]))]),
+        13 => PV::Duration { months: r.below(2) as i64, days: r.below(3) as i64, seconds: 0, nanos: 0 },
+        14 => PV::Vector(vec![*r.pick(&[0.0f32, -0.0, 1.0])]),
+        _ => PV::Integer(r.below(4) as i64),
+    }
+}
+
+struct HistGen {
+    next_uid: i64,
+    next_eid: i64,
+    live: Vec<i64>,
+    edges: Vec<(i64, i64, i64)>,
+    deletes: u64,
+    creates_after_delete: u64,
+    retype: u64,
+}
+
+fn gen_history(r: &mut Rng) -> (Vec<Op>, HistGen) {
+    let mut g = HistGen { next_uid: 1, next_eid: 1, live: vec![], edges: vec![], deletes: 0, creates_after_delete: 0, retype: 0 };
+    let mixed = r.chance(3, 4);
+    let n = r.range(6, 40);
+    let mut ops = Vec::new();
+    for _ in 0..n {
+        let k = r.below(20);
+        if g.live.is_empty() || k < 6 {
+            let uid = g.next_uid;
+            g.next_uid += 1;
+            let mut labels: Vec<usize> = (0..3).filter(|_| r.chance(1, 2)).collect();
+            if labels.is_empty() && r.chance(3, 4) {
+                labels.push(r.below(3) as usize);
+            }
+            let mut props: Vec<(usize, PV)> = Vec::new();
+            for k in 0..2 {
+                if r.chance(3, 4) {
+                    props.push((k, rand_val(r, mixed)));
+                }
+            }
+            if g.deletes > 0 {
+                g.creates_after_delete += 1;
+            }
+            g.live.push(uid);
+            ops.push(Op::CreateNode { uid, labels, props });
+        } else if k < 10 {
+            let uid = *r.pick(&g.live);
+            g.retype += 1;
+            ops.push(Op::SetProp { uid, key: r.below(2) as usize, val: rand_val(r, mixed) });
+        } else if k == 10 {
+            ops.push(Op::RemoveProp { uid: *r.pick(&g.live), key: r.below(2) as usize });
+        } else if k == 11 {
+            ops.push(Op::AddLabel { uid: *r.pick(&g.live), label: r.below(3) as usize });
+        } else if k == 12 {
+            ops.push(Op::RemoveLabel { uid: *r.pick(&g.live), label: r.below(3) as usize });
+        } else if k == 13 || k == 14 {
+            let i = r.below(g.live.len() as u64) as usize;
+            let uid = g.live.remove(i);
+            g.edges.retain(|e| e.1 != uid && e.2 != uid);
+            g.deletes += 1;
+            ops.push(Op::DeleteNode { uid });
+        } else if k < 18 {
+            let eid = g.next_eid;
+            g.next_eid += 1;
+            let (src, dst) = (*r.pick(&g.live), *r.pick(&g.live));
+            g.edges.push((eid, src, dst));
+            if g.deletes > 0 {
+                g.creates_after_delete += 1;
+            }
+            ops.push(Op::CreateEdge { eid, src, dst, ty: r.below(2) as usize, w: PV::Integer(r.below(5) as i64) });
+        } else if k == 18 && !g.edges.is_empty() {
+            let i = r.below(g.edges.len() as u64) as usize;
+            let e = g.edges.remove(i);
+            g.deletes += 1;
+            ops.push(Op::DeleteEdge { eid: e.0 });
+        } else if !g.edges.is_empty() {
+            ops.push(Op::SetEdgeProp { eid: r.pick(&g.edges).0, w: rand_val(r, false) });
+        }
+    }
+    (ops, g)
+}
+
+#[derive(Default)]
+struct Ids {
+    nodes: HashMap<i64, NodeId>,
+    edges: HashMap<i64, (EdgeId, i64, i64)>,
+}
+
+fn apply(store: &mut GraphStore, ids: &mut Ids, op: &Op) {
+    match op {
+        Op::CreateNode { uid, labels, props } => {
+            let mut m = HashMap::new();
+            m.insert("uid".to_string(), PV::Integer(*uid));
+            for (k, v) in props {
+                m.insert(KEYS[*k].to_string(), v.clone());
+            }
+            let id = store.create_node_with_properties("default", labels.iter().map(|l| Label::new(LABELS[*l])).collect(), m);
+            ids.nodes.insert(*uid, id);
+        }
+        Op::SetProp { uid, key, val } => {
+            if let Some(id) = ids.nodes.get(uid) {
+                let _ = store.set_node_property("default", *id, KEYS[*key], val.clone());
+            }
+        }
+        Op::RemoveProp { uid, key } => {
+            if let Some(id) = ids.nodes.get(uid) {
+                store.remove_node_property(*id, KEYS[*key]);
+            }
+        }
+        Op::AddLabel { uid, label } => {
+            if let Some(id) = ids.nodes.get(uid) {
+                let _ = store.add_label_to_node("default", *id, LABELS[*label]);
+            }
+        }
+        Op::RemoveLabel { uid, label } => {
+            if let Some(id) = ids.nodes.get(uid) {
+                let _ = store.remove_label_from_node(*id, &Label::new(LABELS[*label]));
+            }
+        }
+        Op::DeleteNode { uid } => {
+            if let Some(id) = ids.nodes.remove(uid) {
+                let _ = store.delete_node("default", id);
+                ids.edges.retain(|_, e| e.1 != *uid && e.2 != *uid);
+            }
+        }
+        Op::CreateEdge { eid, src, dst, ty, w } => {
+            if let (Some(s), Some(d)) = (ids.nodes.get(src), ids.nodes.get(dst)) {
+                let mut m = HashMap::new();
+                m.insert("eid".to_string(), PV::Integer(*eid));
+                m.insert("w".to_string(), w.clone());
+                if let Ok(id) = store.create_edge_with_properties(*s, *d, TYPES[*ty], m) {
+                    ids.edges.insert(*eid, (id, *src, *dst));
+                }
+            }
+        }
+        Op::DeleteEdge { eid } => {
+            if let Some((id, _, _)) = ids.edges.remove(eid) {
+                let _ = store.delete_edge(id);
+            }
+        }
+        Op::SetEdgeProp { eid, w } => {
+            if let Some((id, _, _)) = ids.edges.get(eid) {
+                let _ = store.set_edge_property(*id, "w", w.clone());
+            }
+        }
+    }
+}
+
+fn create_indexes(store: &mut GraphStore) {
+    let e = QueryEngine::new();
+    for l in LABELS {
+        for k in KEYS {
+            let _ = e.execute_mut(&format!("CREATE INDEX ON :{}({})", l, k), store, "default");
+        }
+    }
+}
+
+/// index mode: 0 none, 1 created before the data, 2 created after; compaction: 0 never, 1 at
+/// the end, 2 in the middle of the history
+fn build(ops: &[Op], index_mode: u8, compact_mode: u8) -> (GraphStore, Ids) {
+    let mut store = GraphStore::new();
+    let mut ids = Ids::default();
+    if index_mode == 1 {
+        create_indexes(&mut store);
+    }
+    for (i, op) in ops.iter().enumerate() {
+        if compact_mode == 2 && i == ops.len() / 2 {
+            store.compact_adjacency();
+        }
+        apply(&mut store, &mut ids, op);
+    }
+    if compact_mode == 1 {
+        store.compact_adjacency();
+    }
+    if index_mode == 2 {
+        create_indexes(&mut store);
+    }
+    (store, ids)
+}
+
+// ---------- queries ----------
+#[derive(Clone)]
+struct Query {
+    text: String,
+    params: HashMap<String, PV>,
+    /// (label, key, op, bound) when the query is the single-node comparison the model covers
+    model: Option<(usize, usize, IndexOp, PV)>,
+    uses_adjacency: bool,
+    template: u64,
+}
+
+fn lit(v: &PV) -> Option<String> {
+    match v {
+        PV::Integer(i) if *i != i64::MIN => Some(format!("{}", i)),
+        PV::Float(f) if f.is_finite() => Some(format!("{:?}", f)),
+        PV::String(s) => Some(format!("'{}'", s)),
+        PV::Boolean(b) => Some(format!("{}", b)),
+        PV::Array(a) => {
+            let parts: Option<Vec<String>> = a.iter().map(lit).collect();
+            parts.map(|p| format!("[{}]", p.join(", ")))
+        }
+        PV::Null => Some("null".to_string()),
+        _ => None,
+    }
+}
+
+const OPS: [(&str, Option<IndexOp>); 6] = [
+    ("=", Some(IndexOp::Eq)),
+    ("<", Some(IndexOp::Lt)),
+    ("<=", Some(IndexOp::Le)),
+    (">", Some(IndexOp::Gt)),
+    (">=", Some(IndexOp::Ge)),
+    ("<>", None),
+];
+
+fn flip(op: &str) -> &'static str {
+    match op {
+        "<" => ">",
+        "<=" => ">=",
+        ">" => "<",
+        ">=" => "<=",
+        "=" => "=",
+        _ => "<>",
+    }
+}
+
+fn gen_query(r: &mut Rng, qi: u64) -> Query {
+    let l = r.below(3) as usize;
+    let k = r.below(2) as usize;
+    let (ops, oi) = *r.pick(&OPS);
+    let bound = if r.chance(1, 12) {
+        PV::Null
+    } else {
+        let mixed = r.chance(2, 3);
+        rand_val(r, mixed)
+    };
+    let mut params = HashMap::new();
+    // the bound as a literal, or as a parameter when it has no literal form (or now and then anyway)
+    let b = match lit(&bound) {
+        Some(s) if !r.chance(1, 6) => s,
+        _ => {
+            params.insert("p".to_string(), bound.clone());
+            "$p".to_string()
+        }
+    };
+    let (ll, kk) = (LABELS[l], KEYS[k]);
+    let k2 = KEYS[1 - k];
+    let b2 = lit(&rand_val(r, false)).unwrap_or("1".to_string());
+    let ty = TYPES[r.below(2) as usize];
+    let mut model = None;
+    let mut adj = false;
+    let t = if qi % 8 == 0 { 0 } else { r.below(17) };
+    let text = match t {
+        0 | 1 => {
+            if let Some(o) = oi {
+                if !matches!(bound, PV::Null) {
+                    model = Some((l, k, o, bound.clone()));
+                }
+            }
+            format!("MATCH (n:{}) WHERE n.{} {} {} RETURN n.uid AS a", ll, kk, ops, b)
+        }
+        2 => format!("MATCH (n:{}) WHERE {} {} n.{} RETURN n.uid AS a", ll, b, flip(ops), kk),
+        3 => format!("MATCH (n:{} {{{}: {}}}) RETURN n.uid AS a", ll, kk, b),
+        4 => format!("MATCH (n:{}) WHERE n.{} {} {} AND n.{} >= {} RETURN n.uid AS a", ll, kk, ops, b, k2, b2),
+        5 => {
+            adj = true;
+            format!("MATCH (n:{})-[r:{}]->(m) WHERE n.{} {} {} RETURN n.uid AS a, r.eid AS b, m.uid AS c", ll, ty, kk, ops, b)
+        }
+        6 => {
+            adj = true;
+            format!("MATCH (n)-[r]->(m:{}) WHERE m.{} {} {} RETURN n.uid AS a, r.eid AS b, m.uid AS c", ll, kk, ops, b)
+        }
+        7 => {
+            adj = true;
+            format!("MATCH (n:{})-[r]-(m) RETURN n.uid AS a, r.eid AS b, m.uid AS c", ll)
+        }
+        8 => {
+            adj = true;
+            "MATCH (a)-[r1]->(b)-[r2]->(c) RETURN a.uid AS a, r1.eid AS b, r2.eid AS c".to_string()
+        }
+        9 => format!("MATCH (n:{}) WHERE n.{} {} {} RETURN count(*) AS a", ll, kk, ops, b),
+        10 => format!("MATCH (n:{}) RETURN n.{} AS a, count(*) AS b", ll, kk),
+        11 => format!("MATCH (n:{}:{}) WHERE n.{} {} {} RETURN n.uid AS a", ll, LABELS[(l + 1) % 3], kk, ops, b),
+        12 => format!("MATCH (n:{}) WHERE n.{} {} {} OR n.{} = {} RETURN n.uid AS a", ll, kk, ops, b, k2, b2),
+        13 => {
+            adj = true;
+            format!("MATCH (n)-[r:{}]->(m) RETURN count(r) AS a", ty)
+        }
+        14 => format!("MATCH (n:{}) RETURN count(n) AS a", ll),
+        15 => {
+            adj = true;
+            format!("MATCH (n:{} {{{}: {}}})-[r]->(m:{}) WHERE m.{} >= {} RETURN n.uid AS a, r.w AS b, m.uid AS c", ll, kk, b, LABELS[(l + 2) % 3], k2, b2)
+        }
+        _ => format!("MATCH (n:{}) WHERE n.{} {} {} RETURN id(n) AS a, n.{} AS b", ll, kk, ops, b, k2),
+    };
+    Query { text, params, model, uses_adjacency: adj, template: t }
+}
+
+fn exec(store: &GraphStore, q: &Query, native: bool, parallel: bool) -> Result<Vec<String>, String> {
+    std::env::set_var("SAMYAMA_GRAPH_NATIVE", if native { "true" } else { "false" });
+    std::env::set_var("SAMYAMA_FILTER_PARALLEL_COST", if parallel { "0" } else { "1000000000" });
+    let r = catch(std::panic::AssertUnwindSafe(|| -> Result<_, String> {
+        if q.params.is_empty() {
+            // the public entry point; it reads SAMYAMA_GRAPH_NATIVE itself
+            QueryEngine::new().execute(&q.text, store).map_err(|e| e.to_string())
+        } else {
+            let parsed = parse_query(&q.text).map_err(|e| e.to_string())?;
+            let ex = if native {
+                QueryExecutor::with_planner(store, QueryPlanner::with_config(PlannerConfig { graph_native: true, max_candidate_plans: 64 }))
+            } else {
+                QueryExecutor::new(store)
+            };
+            ex.with_params(q.params.clone()).execute(&parsed).map_err(|e| e.to_string())
+        }
+    }));
     match r {
         Err(p) => Err(format!("PANIC {}", p)),
         Ok(Err(e)) => Err(format!("ERR {}", e)),
@@ -21,77 +410,256 @@ fn rows(store: &GraphStore, q: &str) -> Result<Vec<String>, String> {
     }
 }
 
-fn wr(store: &mut GraphStore, q: &str) {
-    let r = QueryEngine::new().execute_mut(q, store, "default");
-    if let Err(e) = r {
-        println!("   write {} -> ERR {}", q, e);
+fn digest(r: &Result<Vec<String>, String>) -> String {
+    match r {
+        Ok(v) => format!("OK[{}]", v.join(" ; ")),
+        // an error class, not its message
+        Err(e) => format!("E:{}", e.split(':').next().unwrap_or("")),
     }
 }
 
+fn uid_of(store: &GraphStore, id: NodeId) -> Option<i64> {
+    store.get_node(id).and_then(|n| n.get_property("uid").and_then(|v| v.as_integer()))
+}
+
+fn uids_of_rows(r: &Result<Vec<String>, String>) -> Option<Vec<u64>> {
+    // rows look like `Some(Property(Integer(7)))`
+    let v = r.as_ref().ok()?;
+    let mut out = Vec::new();
+    for row in v {
+        let s = row.strip_prefix("Some(Property(Integer(")?.strip_suffix(")))")?;
+        out.push(s.parse::<u64>().ok()?);
+    }
+    Some(out)
+}
+
+fn g_iop(o: IndexOp) -> &'static str {
+    match o {
+        IndexOp::Eq => "OEq",
+        IndexOp::Lt => "OLt",
+        IndexOp::Le => "OLe",
+        IndexOp::Gt => "OGt",
+        IndexOp::Ge => "OGe",
+    }
+}
+
+/// Known findings of the graph-native planner (known_findings.txt), by query shape; they apply
+/// only when the 18 legacy-planner configurations agree with one another.
+fn native_class(template: u64) -> Option<&'static str> {
+    match template {
+        11 => Some("native_multi_label"),
+        7 => Some("native_undirected"),
+        8 => Some("native_rel_uniqueness"),
+        5 | 6 | 15 => Some("native_expand_label"),
+        _ => None,
+    }
+}
+
+const CONFIGS: usize = 36;
+fn config_name(i: usize) -> String {
+    let (im, cm, nat, par) = (i / 12, (i / 4) % 3, (i / 2) % 2, i % 2);
+    format!(
+        "{}/{}/{}/{}",
+        ["no-index", "index-before", "index-after"][im],
+        ["uncompacted", "compacted-at-end", "compacted-midway"][cm],
+        ["legacy", "graph-native"][nat],
+        ["sequential-filter", "parallel-filter"][par]
+    )
+}
+
 fn main() {
+    let args = parse_args();
     quiet_panics();
-    let setup = [
-        "CREATE (:L {x: 6, t: 'int6'})",
-        "CREATE (:L {x: 'a', t: 'str'})",
-        "CREATE (:L {x: 1.5, t: 'f1.5'})",
-        "CREATE (:L {x: 0.0/0.0, t: 'nan'})",
-        "CREATE (:L {x: [7, 8], t: 'list'})",
-        "CREATE (:L {x: 1, t: 'int1'})",
-        "CREATE (:L {x: 1.0, t: 'f1.0'})",
-        "CREATE (:L {x: true, t: 'bool'})",
-        "CREATE (:L {x: 9007199254740993, t: 'int2p53+1'})",
-        "CREATE (:L {x: 9007199254740992.0, t: 'f2p53'})",
-        "CREATE (:L {t: 'absent'})",
-        "CREATE (:L {x: 10, t: 'removed'})",
-        "CREATE (:L {x: 11, t: 'unlabelled'})",
-        "CREATE (:L {x: 12, t: 'retyped'})",
-    ];
-    let after = [
-        "MATCH (n:L {t: 'removed'}) REMOVE n.x",
-        "MATCH (n:L {t: 'unlabelled'}) REMOVE n:L SET n:M",
-        "MATCH (n:L {t: 'retyped'}) SET n.x = 'twelve'",
-    ];
-    let queries = [
-        "MATCH (n:L) WHERE n.x > 5 RETURN n.t",
-        "MATCH (n:L) WHERE n.x >= 6 RETURN n.t",
-        "MATCH (n:L) WHERE n.x < 5 RETURN n.t",
-        "MATCH (n:L) WHERE n.x <= 1 RETURN n.t",
-        "MATCH (n:L) WHERE n.x = 1 RETURN n.t",
-        "MATCH (n:L) WHERE n.x = 1.0 RETURN n.t",
-        "MATCH (n:L {x: 1}) RETURN n.t",
-        "MATCH (n:L) WHERE 5 < n.x RETURN n.t",
-        "MATCH (n:L) WHERE n.x > 'A' RETURN n.t",
-        "MATCH (n:L) WHERE n.x = 9007199254740992.0 RETURN n.t",
-        "MATCH (n:L) WHERE n.x >= 9007199254740993 RETURN n.t",
-        "MATCH (n:L) WHERE n.x > 1.0 RETURN n.t",
-        "MATCH (n:L) WHERE n.x = null RETURN n.t",
-        "MATCH (n:L) WHERE n.x > 5 AND n.t <> 'zz' RETURN n.t",
-    ];
-    for native in ["false", "true"] {
-        std::env::set_var("SAMYAMA_GRAPH_NATIVE", native);
-        let mut plain = GraphStore::new();
-        let mut ixb = GraphStore::new();
-        let mut ixa = GraphStore::new();
-        wr(&mut ixb, "CREATE INDEX ON :L(x)");
-        for s in [&mut plain, &mut ixb, &mut ixa] {
-            for q in setup {
-                wr(s, q);
+    let child_out = std::env::var("C02_CHILD_OUT").ok();
+    let mut out = Out::new(&args, "From Verif Require Import Value Index.", "Index.case", "Index.check_case", 60);
+    out.rule = "random histories (6-40 operations: node/relationship creates, property sets with type changes, property and \
+                label removals, node and relationship deletes followed by creates that reuse ids) replayed into 9 stores \
+                {no index, indexes before the data, indexes after the data} x {never compacted, compacted at the end, compacted \
+                midway}; 8 generated read queries per history (single-node comparisons with literal or parameter bounds of every \
+                type, reversed operands, inline properties, conjunctions, OR, multi-label, expansions in both directions, \
+                two-hop, aggregates, id()) each run on every store under {legacy, graph-native} x {parallel filter on, off}: \
+                36 bags per query must be equal, and equal to the bag a child process computes; for the single-node comparisons \
+                the labelled nodes, both answers and PropertyIndex::candidates are checked against the model. Non-trivial = at \
+                least one configuration returned a row; distinct by (history, query)."
+        .to_string();
+    let n_hist = if args.thorough { 2500 } else { 150 };
+    let per_hist = 8u64;
+    let mut child_lines: Vec<String> = Vec::new();
+    let mut parent_digests: BTreeMap<(u64, u64), String> = BTreeMap::new();
+
+    for h in 0..n_hist {
+        let mut r = Rng::for_case(args.seed, h);
+        let (ops, g) = gen_history(&mut r);
+        let queries: Vec<Query> = (0..per_hist).map(|qi| gen_query(&mut r, qi)).collect();
+        if let Some(_) = &child_out {
+            // child: one configuration only (index-before, compacted-at-end, legacy, sequential)
+            let (store, _) = build(&ops, 1, 1);
+            for (qi, q) in queries.iter().enumerate() {
+                child_lines.push(format!("{}\t{}\t{}", h, qi, digest(&exec(&store, q, false, false))));
             }
-            for q in after {
-                wr(s, q);
+            continue;
+        }
+        let base = out.next_index();
+        let wanted: Vec<bool> = (0..per_hist).map(|qi| out.wants(base + qi)).collect();
+        if !wanted.iter().any(|w| *w) {
+            for _ in 0..per_hist {
+                out.skip();
             }
+            continue;
         }
-        wr(&mut ixa, "CREATE INDEX ON :L(x)");
-        println!("== SAMYAMA_GRAPH_NATIVE={}", native);
-        for q in ["EXPLAIN MATCH (n:L) WHERE n.x > 5 RETURN n.t", "EXPLAIN MATCH (n:L {x: 1}) RETURN n.t", "EXPLAIN MATCH (n:L)-[:R]->(m:L) WHERE m.x > 5 RETURN n.t"] {
-            println!("{:?}", QueryEngine::new().execute(q, &ixb).map(|b| b.records.iter().map(|r| format!("{:?}", r)).collect::<Vec<_>>()).map_err(|e| e.to_string()));
+        let stores: Vec<(GraphStore, Ids)> = (0..9).map(|i| build(&ops, (i / 3) as u8, (i % 3) as u8)).collect();
+        out.count("histories");
+        if g.deletes > 0 {
+            out.count("histories_with_delete");
         }
-        for q in queries {
-            let a = rows(&plain, q);
-            let b = rows(&ixb, q);
-            let c = rows(&ixa, q);
-            let tag = if a == b && a == c { "same" } else { "DIFF" };
-            println!("{} {}\n   noindex      {:?}\n   index-before {:?}\n   index-after  {:?}", tag, q, a, b, c);
+        if g.creates_after_delete > 0 {
+            out.count("histories_with_id_reuse");
+        }
+        if g.retype > 0 {
+            out.count("histories_with_property_change");
+        }
+        let hist_text = format!("{:?}", ops);
+        for (qi, q) in queries.iter().enumerate() {
+            if !wanted[qi] {
+                out.skip();
+                continue;
+            }
+            let mut results: Vec<Result<Vec<String>, String>> = Vec::with_capacity(CONFIGS);
+            for c in 0..CONFIGS {
+                let (im, cm, nat, par) = (c / 12, (c / 4) % 3, (c / 2) % 2 == 1, c % 2 == 1);
+                results.push(exec(&stores[im * 3 + cm].0, q, nat, par));
+            }
+            out.count_n("executions", CONFIGS as u64);
+            let d0 = digest(&results[0]);
+            parent_digests.insert((h, qi as u64), digest(&results[12 + 4]));
+            let bad = (1..CONFIGS).find(|c| digest(&results[*c]) != d0);
+            let nonempty = results.iter().any(|r| matches!(r, Ok(v) if !v.is_empty()));
+            match &results[0] {
+                Ok(v) if !v.is_empty() => out.count("queries_with_rows"),
+                Ok(_) => out.count("queries_empty"),
+                Err(_) => out.count("queries_error"),
+            }
+            if q.uses_adjacency {
+                out.count("queries_over_relationships");
+            }
+            if !q.params.is_empty() {
+                out.count("queries_with_parameter_bound");
+            }
+            let human = format!("history={} query={} params={:?}", hist_text, q.text, q.params.iter().map(|(k, v)| (k, h_pv(v))).collect::<Vec<_>>());
+            // the model case
+            let gal = if let Some((l, k, op, bound)) = &q.model {
+                out.count("model_cases");
+                let plain = &stores[0].0;
+                let label = Label::new(LABELS[*l]);
+                let mut ns: Vec<(i64, Option<PV>)> = plain
+                    .get_nodes_by_label(&label)
+                    .iter()
+                    .filter_map(|n| n.get_property("uid").and_then(|u| u.as_integer()).map(|u| (u, n.get_property(KEYS[*k]).cloned())))
+                    .collect();
+                ns.sort_by_key(|x| x.0);
+                let kinds: std::collections::BTreeSet<&'static str> =
+                    ns.iter().filter_map(|x| x.1.as_ref().map(|v| v.type_name())).collect();
+                if kinds.len() > 1 {
+                    out.count("model_cases_mixed_types");
+                }
+                let after = &stores[6].0;
+                let cand: Vec<u64> = after
+                    .property_index
+                    .get_index(&label, KEYS[*k])
+                    .map(|ix| ix.read().unwrap().candidates(*op, bound))
+                    .unwrap_or_default()
+                    .into_iter()
+                    .filter_map(|id| uid_of(after, id).map(|u| u as u64))
+                    .collect();
+                if cand.len() < ns.iter().filter(|x| x.1.is_some()).count() {
+                    out.count("model_cases_index_narrowed");
+                }
+                let got_plain = uids_of_rows(&results[0]);
+                let got_indexed = uids_of_rows(&results[12]);
+                match (got_plain, got_indexed) {
+                    (Some(a), Some(b)) => format!(
+                        "({}, {}, {}, {}, {}, {})",
+                        g_list(ns.iter().map(|(u, v)| format!("({}, {})", u, g_opt(v.as_ref().map(|v| format!("({})", g_pv(v))))))),
+                        g_iop(*op),
+                        g_pv(bound),
+                        g_list(a.iter().map(|x| x.to_string())),
+                        g_list(b.iter().map(|x| x.to_string())),
+                        g_list(cand.iter().map(|x| x.to_string()))
+                    ),
+                    // an error on this path is reported by the metamorphic comparison; the model gets a trivial case
+                    _ => "([], OEq, PNull, [], [], [])".to_string(),
+                }
+            } else {
+                "([], OEq, PNull, [], [], [])".to_string()
+            };
+            let i = out.case(gal, human.clone(), nonempty);
+            if std::env::var("C02_SHOW").ok().and_then(|s| s.parse::<u64>().ok()) == Some(i) {
+                eprintln!("{}", human);
+                for c in 0..CONFIGS {
+                    eprintln!("  {:70} {}", config_name(c), digest(&results[c]));
+                }
+            }
+            if let Some(c) = bad {
+                // configurations c with (c / 2) % 2 == 0 use the legacy planner
+                let legacy_agree = (0..CONFIGS).filter(|c| (c / 2) % 2 == 0).all(|c| digest(&results[c]) == d0);
+                let class = if legacy_agree { native_class(q.template) } else { None };
+                if let Some(cl) = class {
+                    out.count(&format!("known_{}", cl));
+                }
+                out.fail(
+                    i,
+                    &human,
+                    &format!(
+                        "result depends on configuration (query shape {}, legacy configurations {}): {} -> {} but {} -> {}",
+                        q.template,
+                        if legacy_agree { "all agree" } else { "disagree" },
+                        config_name(0),
+                        d0,
+                        config_name(c),
+                        digest(&results[c])
+                    ),
+                    class,
+                );
+            } else if let Err(e) = &results[0] {
+                if e.starts_with("PANIC") {
+                    out.fail(i, &human, &format!("the engine panicked in every configuration: {}", e), None);
+                }
+            }
         }
     }
+
+    if let Some(p) = child_out {
+        std::fs::write(p, child_lines.join("\n")).expect("child out");
+        return;
+    }
+    // second process: same seed, fresh hash seeds
+    if args.only.is_none() {
+        let tmp = args.out.join("child.txt");
+        let st = std::process::Command::new(std::env::current_exe().unwrap())
+            .args(["--seed", &args.seed.to_string(), "--tier", if args.thorough { "thorough" } else { "quick" }, "--out"])
+            .arg(args.out.join("child"))
+            .env("C02_CHILD_OUT", &tmp)
+            .status();
+        let mut compared = 0u64;
+        match (st, std::fs::read_to_string(&tmp)) {
+            (Ok(s), Ok(text)) if s.success() => {
+                for line in text.lines() {
+                    let mut it = line.splitn(3, '\t');
+                    let (h, qi, d) = (it.next().unwrap().parse::<u64>().unwrap(), it.next().unwrap().parse::<u64>().unwrap(), it.next().unwrap_or(""));
+                    if let Some(pd) = parent_digests.get(&(h, qi)) {
+                        compared += 1;
+                        if pd != d {
+                            let idx = h * per_hist + qi;
+                            out.fail(idx, &format!("history {} query {}", h, qi), &format!("a second process returned a different bag: {} vs {}", pd, d), None);
+                        }
+                    }
+                }
+            }
+            _ => out.notes.push("child process did not run".to_string()),
+        }
+        out.count_n("compared_with_second_process", compared);
+        let _ = std::fs::remove_file(&tmp);
+        let _ = std::fs::remove_dir_all(args.out.join("child"));
+    }
+    out.finish();
 }
